@@ -20,6 +20,9 @@ def _populate_grid_time(cursor, time_zone_name, result):
     ensures(forall(0, len(g_rows), lambda i: result[0][i] == g_rows[i][0]))
     ensures(result[1] > 0)
     ensures(forall(0, len(result[0]) - 1, lambda i: result[0][i + 1] - result[0][i] == result[1]))
+    # what populate_water_level requires of the grid it is given
+    ensures(uf_int("n_staged_wl") >= 2)
+    ensures(uf_int("min_staged_wl") <= result[0][0] and result[0][len(result[0]) - 2] <= uf_int("max_staged_wl"))
 
 
 @contract("spowtd.load:generate_timestamped_rows", args={"rows": "list[list[int]]", "tz": "tz"}, returns="list[list[int]]")
@@ -108,7 +111,7 @@ def _populate_water_level(cursor, time_grid):
     * an instant is left without label exactly when it lies strictly inside a gap of the source record;
     * two labelled instants carry the same label exactly when no gap separates them;
     * the label updates are the labelled instants in order; the water-level rows are the labelled instants
-      except the closing one, in order, each with the straight-line interpolation between the two adjacent
+      before the closing one, in order, each with the straight-line interpolation between the two adjacent
       source measurements that bracket it."""
     requires(not db_sealed())
     requires(len(db_rows("grid_time_label")) == 0 and len(db_rows("water_level")) == 0)
@@ -122,19 +125,36 @@ def _populate_water_level(cursor, time_grid):
     ghost(after="zeta_t = np.array(zeta_t)", let="g_t", do=lambda: zeta_t)
     ghost(after="zeta_t = np.array(zeta_t)", let="g_z", do=lambda: zeta_mm)
     ghost(after="gap_i = ", let="g_min", do=lambda: time_steps.min())
+    # the gaps in ascending order: measurements at and after them are ordered accordingly (transitive form)
+    ghost(after="gap_i = ", do=lambda: cut(forall(0, len(gap_i), lambda g: 0 <= gap_i[g] and gap_i[g] < len(zeta_t) - 1
+                                                  and is_gap(zeta_t, g_min, gap_i[g]))))
+    ghost(after="gap_i = ", do=lambda: cut(forall(0, len(zeta_t) - 1, lambda s: implies(
+        is_gap(zeta_t, g_min, s), exists(0, len(gap_i), lambda g: gap_i[g] == s)))))
+    ghost(after="gap_i = ", do=lambda: cut(forall(0, len(gap_i), lambda g2: forall(0, g2 + 1, lambda g:
+                                           zeta_t[gap_i[g]] <= zeta_t[gap_i[g2]] and zeta_t[gap_i[g] + 1] <= zeta_t[gap_i[g2] + 1]))))
+    ghost(after="gap_i = ", do=lambda: cut(forall(0, len(zeta_t) - 1, lambda s: zeta_t[s] < zeta_t[s + 1])))
     ghost(after="valid_intervals = [", do=lambda: cut(
         len(valid_intervals) == len(gap_i) + 1
-        and forall(0, len(valid_intervals), lambda k: valid_intervals[k][2] == k + 1
+        and forall(0, len(valid_intervals), lambda k: valid_intervals[k][2] != -1
                    and valid_intervals[k][0] == st_start(time_grid, zeta_t, gap_i, k)
                    and valid_intervals[k][1] == st_end(time_grid, zeta_t, gap_i, k))))
-    loop(0, inv=lambda it: len(data_intervals) == len(time_grid) and forall(0, len(time_grid), lambda i:
-         ((data_intervals[i] == -1 and forall(0, it, lambda k: not (st_start(time_grid, zeta_t, gap_i, k) <= time_grid[i]
-                                                                    and time_grid[i] <= st_end(time_grid, zeta_t, gap_i, k))))
-          or (1 <= data_intervals[i] and data_intervals[i] <= it
-              and st_start(time_grid, zeta_t, gap_i, data_intervals[i] - 1) <= time_grid[i]
-              and time_grid[i] <= st_end(time_grid, zeta_t, gap_i, data_intervals[i] - 1)))
+    # the labels of different stretches differ (what the labels are is left open)
+    ghost(after="valid_intervals = [", do=lambda: cut(forall(0, len(valid_intervals), lambda k2: forall(0, k2, lambda k:
+                                                       valid_intervals[k][2] != valid_intervals[k2][2]))))
+    # g_k: per grid instant, the stretch whose label it carries (-1: none)
+    ghost(after="data_intervals[:] = -1", let="g_k", do=lambda: [-1 for i in range(len(time_grid))])
+    ghost(after="data_intervals[(time_grid >= start)", let="g_k",
+          do=lambda: [(loop_it(0) if (time_grid[i] >= start and time_grid[i] <= through) else g_k[i]) for i in range(len(time_grid))])
+    loop(0, types={"g_k": "list[int]"},
+         inv=lambda it: len(data_intervals) == len(time_grid) and len(g_k) == len(time_grid) and forall(0, len(time_grid), lambda i:
+         ((data_intervals[i] == -1 and g_k[i] == -1
+           and forall(0, it, lambda k: not (st_start(time_grid, zeta_t, gap_i, k) <= time_grid[i]
+                                            and time_grid[i] <= st_end(time_grid, zeta_t, gap_i, k))))
+          or (0 <= g_k[i] and g_k[i] < it and data_intervals[i] == valid_intervals[g_k[i]][2]
+              and st_start(time_grid, zeta_t, gap_i, g_k[i]) <= time_grid[i]
+              and time_grid[i] <= st_end(time_grid, zeta_t, gap_i, g_k[i])))
          and implies(it >= 1 and time_grid[i] <= st_end(time_grid, zeta_t, gap_i, it - 1),
-                     data_intervals[i] != -1 or in_gap(zeta_t, g_min, time_grid[i]))))
+                     g_k[i] != -1 or in_gap(zeta_t, g_min, time_grid[i]))))
     ghost(before="valid_mask = ", let="g_lab", do=lambda: data_intervals)
     ghost(after="valid_mask = ", let="g_src", do=lambda: np.nonzero(valid_mask)[0])
     ensures(len(g_t) == len(g_z) and len(g_t) >= 2)
@@ -152,7 +172,6 @@ def _populate_water_level(cursor, time_grid):
     ensures(forall(0, len(g_src), lambda r: db_rows("grid_time_label")[r][0] == g_lab[g_src[r]]
                    and db_rows("grid_time_label")[r][1] == time_grid[g_src[r]]))
     # water levels: every labelled instant but the closing one
-    ensures(len(g_src) >= 1 and g_src[len(g_src) - 1] == len(time_grid) - 1)
-    ensures(len(db_rows("water_level")) == len(g_src) - 1)
-    ensures(forall(0, len(g_src) - 1, lambda r: db_rows("water_level")[r][0] == time_grid[g_src[r]]
+    ensures(len(db_rows("water_level")) == len(g_src) - (1 if g_lab[len(time_grid) - 1] != -1 else 0))
+    ensures(forall(0, len(db_rows("water_level")), lambda r: db_rows("water_level")[r][0] == time_grid[g_src[r]]
                    and bracketed(g_t, g_z, time_grid[g_src[r]], db_rows("water_level")[r][1])))
